@@ -125,6 +125,43 @@ Arrive(leaf, g, c, out, mode) ==
               ELSE lo[q][k]]]
         /\ UNCHANGED now
 
+\* A storm: n simultaneous requests for `leaf`, all with header value g and cost c, of which `a` were admitted
+\* (compact form of n overlapping Arrive(.., "conc") steps at one instant: every admitted one found room in
+\* every quota of the chain; every refused one was charged to some prefix of the chain - r[i] of them reached
+\* level i and were charged there, fewer the higher the level).
+Storm(leaf, g, c, n, a) ==
+    LET ch == Chain(leaf)
+        m  == Len(ch)
+        K(i) == Key(ch[i], g)
+    IN
+    /\ last' = [ev |-> "storm", q |-> leaf, g |-> g, cost |-> c, n |-> n, admitted |-> a]
+    /\ a \in 0..n
+    /\ \E exp \in [1..m -> BOOLEAN], rr \in [1..(m - 1) -> 0..(n - a)] :
+        LET r(i) == IF i = m THEN 0 ELSE rr[i]
+            Cnt(i) == IF exp[i] THEN 0 ELSE charged[ch[i]][K(i)]
+            Touched(i) == a > 0 \/ r(i) > 0
+        IN
+        /\ \A i \in 1..m : (exp[i] => MayExpire(ch[i], K(i))) /\ (~exp[i] => MayLive(ch[i], K(i)))
+        /\ \A i \in 1..m : ~Touched(i) => exp[i] = SureExpired(ch[i], K(i))
+        /\ \A i \in 1..(m - 1) : r(i) >= r(i + 1)                     \* a refused request is charged below its refusing quota only
+        /\ \A i \in 1..m : Cnt(i) + (a + r(i)) * c <= Max[ch[i]]      \* the bound
+        /\ charged' = [q \in Quota |-> [k \in Group |->
+              IF \E i \in 1..m : ch[i] = q /\ K(i) = k /\ Touched(i)
+              THEN LET i == CHOOSE i \in 1..m : ch[i] = q IN Cnt(i) + (a + r(i)) * c
+              ELSE charged[q][k]]]
+        /\ admitted' = [q \in Quota |-> [k \in Group |->
+              IF \E i \in 1..m : ch[i] = q /\ K(i) = k /\ Touched(i)
+              THEN LET i == CHOOSE i \in 1..m : ch[i] = q IN (IF exp[i] THEN 0 ELSE admitted[q][k]) + a * c
+              ELSE admitted[q][k]]]
+        /\ hi' = [q \in Quota |-> [k \in Group |->
+              IF \E i \in 1..m : ch[i] = q /\ K(i) = k /\ Touched(i) /\ exp[i] THEN now ELSE hi[q][k]]]
+        /\ lo' = [q \in Quota |-> [k \in Group |->
+              IF \E i \in 1..m : ch[i] = q /\ K(i) = k /\ Touched(i)
+              THEN LET i == CHOOSE i \in 1..m : ch[i] = q IN
+                   IF exp[i] THEN now - Gran + 1 ELSE MaxOf(lo[q][k], now - W[q] + 1)
+              ELSE lo[q][k]]]
+        /\ UNCHANGED now
+
 Next ==
     \/ \E d \in Steps : Advance(d)
     \/ \E q \in Quota, g \in Group, c \in Costs, out \in {"admit", "refuse"} : Arrive(q, g, c, out, "seq")
@@ -147,7 +184,10 @@ Exact == [][(last'.ev = "arrive" /\ last'.out = "refuse" /\ last'.mode = "seq") 
 
 \* a window that is reopened starts from the opening request alone
 NoCarry == [][\A q \in Quota, k \in Group :
-                (hi'[q][k] # hi[q][k]) => (charged'[q][k] \in {0, last'.cost} /\ admitted'[q][k] <= charged'[q][k])]_vars
+                (hi'[q][k] # hi[q][k]) =>
+                    /\ admitted'[q][k] <= charged'[q][k]
+                    /\ IF last'.ev = "storm" THEN charged'[q][k] <= last'.n * last'.cost
+                       ELSE charged'[q][k] \in {0, last'.cost}]_vars
 
 TypeOK == /\ now \in 0..MaxNow
           /\ \A q \in Quota, k \in Group : lo[q][k] <= hi[q][k]
